@@ -89,6 +89,15 @@ Judge(obs) ==
   \cup { [property |-> "C13", clause |-> "Intact", sig |-> "description-lines:" \o obs.style, expected |-> ToString(DescLines(l.decl)), observed |-> ToString(l.text)]
          : l \in { l \in ToSet(obs.lines) : l.text # DescLines(l.decl) } }
 
+(* Declarations of a package file that are called like a submodule of the package (def helper in pkg/__init__.py next to pkg/helper.py,  *)
+(* class widget next to pkg/widget.py): each of the four descriptions stays with its own element.                                      *)
+(* obs = [style, docs: Seq [decl, text: Seq(STRING)]]; decl is "helper", "widget", "@module:helper" or "@module:widget" *)
+PkgExpected(decl) == CASE decl = "helper" -> << "tok_pkgfn_desc first line." >> [] decl = "widget" -> << "tok_pkgcls_desc first line." >>
+                       [] decl = "@module:helper" -> << "tok_submodh_desc first line." >> [] decl = "@module:widget" -> << "tok_submodw_desc first line." >>
+JudgePkgFile(obs) ==
+  { [property |-> "C13", clause |-> "Attach", sig |-> "package-file-declaration-named-like-submodule:" \o obs.style \o ":" \o d.decl,
+     expected |-> ToString(PkgExpected(d.decl)), observed |-> ToString(d.text)] : d \in { d \in ToSet(obs.docs) : d.text # PkgExpected(d.decl) } }
+
 (* obs = [decl, a, b, sa, sb]: the comment of one declaration under two structured styles *)
 JudgeStyle(obs) ==
   IF obs.a = obs.b THEN {}
